@@ -103,6 +103,8 @@ type Ctx struct {
 	refStruct     map[string]Term // named reference -> its structural (mkref ...) form
 	inQuant       int
 	needQuantHeap bool
+	defNames      map[string]bool // names introduced by define-fun (not usable inside patterns: they expand)
+	quantVars     [][2]string // (name, sort) of the kept quantifiers being evaluated, outermost first
 	quantLoads    [][]Term          // heap reads made while evaluating the body of each open quantifier (pattern candidates)
 	trigSeen      map[string]bool
 	boolDefs      map[string]string // define-fun name -> body, for Bool definitions (path conditions)
@@ -114,7 +116,7 @@ const globalBase = 1000
 func NewCtx(w *World, intMode bool) *Ctx {
 	c := &Ctx{W: w, intMode: intMode, strLits: map[string]Term{}, memSort: map[string]string{},
 		memInit: map[string]Term{}, globals: map[*ssa.Global]Term{}, assumed: map[string]bool{},
-		ufDecl: map[string]bool{}, sites: map[string]int{}, depthCap: 8, epochCache: map[string]Term{}, defCache: map[string]string{}, baseArrays: map[string][]baseArr{}, refStruct: map[string]Term{}, storeOf: map[string]storeRec{}, frameRecs: map[string]frameRec{}, boolCache: map[string]bool{}, boolDefs: map[string]string{}, trigSeen: map[string]bool{}, deadTags: map[string]bool{}, copyRecs: map[string]copyRec{}, mergeOf: map[string][]Term{}, oldRefs: map[string]bool{}, knownConst: map[string]string{}}
+		ufDecl: map[string]bool{}, sites: map[string]int{}, depthCap: 8, epochCache: map[string]Term{}, defCache: map[string]string{}, baseArrays: map[string][]baseArr{}, refStruct: map[string]Term{}, storeOf: map[string]storeRec{}, frameRecs: map[string]frameRec{}, boolCache: map[string]bool{}, boolDefs: map[string]string{}, defNames: map[string]bool{}, trigSeen: map[string]bool{}, deadTags: map[string]bool{}, copyRecs: map[string]copyRec{}, mergeOf: map[string][]Term{}, oldRefs: map[string]bool{}, knownConst: map[string]string{}}
 	if intMode {
 		c.idxSort = SInt
 	} else {
@@ -158,6 +160,7 @@ func (c *Ctx) Def(prefix string, t Term) Term {
 	}
 	n := c.fresh(prefix)
 	c.defCache[key] = n
+	c.defNames[n] = true
 	if t.Sort == SRef {
 		if _, _, ok := splitRef(t); ok {
 			c.refStruct[n] = t
